@@ -2,9 +2,12 @@
 # usage: tools/seedtest.sh <seed dir name> <property id> [tier]  -- apply the seeded patch to /repo, run the check, undo
 d=$1; p=$2; t=${3:-quick}
 cd /verif
-git -C /repo apply /verif/seeded/$d/patch.diff || { echo "APPLY FAILED"; exit 2; }
+pf=/verif/seeded/$d/patch.diff; [ -f /verif/seeded/$d/patch_on_head.diff ] && pf=/verif/seeded/$d/patch_on_head.diff   # hand port to the repaired tree
+git -C /repo apply $pf || { echo "APPLY FAILED"; exit 2; }
+cp evidence/$p.json .cache/evidence_$p.keep 2>/dev/null    # the evidence file of the clean tree must not be replaced by that of the mutated one
 python3 tools/check.py $p --tier $t 2>&1 | tail -6
 rc=$?
+cp evidence/$p.json .cache/evidence_$p.seeded 2>/dev/null; [ -f .cache/evidence_$p.keep ] && mv .cache/evidence_$p.keep evidence/$p.json
 git -C /repo checkout -- .
 echo "seed=$d prop=$p"
 # the run above regenerated lean/Fix8Model/Gen/* from the mutated tree: regenerate from the restored tree so that nothing mutated is left behind
